@@ -539,7 +539,7 @@ theorem changeKey_sim {eq : V → V → Bool} {cap : Nat} {h h' : IBinomial K V}
             refine ⟨⟨by rw [hh3, hh2]; exact r3, ?_⟩, ?_⟩
             · rw [hn3, hn2, habs', Spec.card_set_some_old _ _ hr habs]
               exact inv.card
-            · rw [habs']; exact .changeKey_ok habs
+            · rw [habs']; exact .changeKey_ok habs (Or.inl rfl)
           · cases he
           · cases he
       · cases hpr
